@@ -8,7 +8,7 @@
    the indicator's own slot).  For the other indicators and composite ones the property is
    decided by the bit-exact correspondence and the falsifier. *)
 From Coq Require Import ZArith List String Bool.
-From Hexital Require Import Base.Prelude Base.Num Model.Manager Model.Candle Model.Readings Model.Engine
+From Hexital Require Import Base.Prelude Base.Num Inst.ZInst Model.Manager Model.Candle Model.Readings Model.Engine
   Proofs.EngineProofs Proofs.CausalProofs Proofs.AnalysisProofs Proofs.ComposeProofs Proofs.PipelineProofs Proofs.ComposeHA Proofs.CausalMore Proofs.CausalWin Proofs.CompositeProofs Proofs.AtrCompose Model.Analysis.
 Import ListNotations.
 Local Open Scope Z_scope.
@@ -194,3 +194,13 @@ Theorem C01_atr_incremental_equals_batch :
   engine_chunks O (top O (K_ATR period) name rnd) [] chunks = Ok r.
 Proof. intros O period name rnd Hp Hn chunks r HP HS H. eapply atr_incremental_equals_batch; eassumption. Qed.
 Print Assumptions C01_atr_incremental_equals_batch.
+
+(* the premises are met by ordinary raw candles, and the conclusion is not vacuous: over Z,
+   ATR(2) on four candles fed as 1 + 2 + 1 *)
+Example C01_atr_example :
+  let mk ts o h l c := Build_cd ts (raw_payload ZOps (Build_ohlcv ZOps o h l c 10)) in
+  let c1 := mk 60 10 14 8 12 in let c2 := mk 120 12 18 11 16 in let c3 := mk 180 16 17 9 10 in let c4 := mk 240 10 13 10 12 in
+  let A := top ZOps (K_ATR 2) "ATR_2" 4 in
+  exists r, calculate ZOps A [c1; c2; c3; c4] = Ok r /\ engine_chunks ZOps A [] [[c1]; [c2; c3]; [c4]] = Ok r /\
+            map (fun c => alist_get "ATR_2" (inds ZOps (p c))) r = [Some VNone; Some VNone; Some (@VNum ZOps 7); Some (@VNum ZOps 5)].
+Proof. cbn zeta. eexists. split; [vm_compute; reflexivity|]. split; vm_compute; reflexivity. Qed.
